@@ -199,7 +199,10 @@ Inductive op :=
 | Frame                  (* renderer.frame(term) *)
 | SkipFrame              (* renderer.surface().clear(), no frame *)
 | Clear                  (* renderer.clear(term) *)
-| Renew.                 (* renderer.clear(term); renderer = TerminalRenderer::new(term, true)  (terminal.rs, resize path) *)
+| Renew                  (* renderer.clear(term); renderer = TerminalRenderer::new(term, true)  (terminal.rs, resize path) *)
+| Resize (h w : nat) (g : grid scell).
+                         (* the same after the terminal was resized to h x w and now shows g (an arbitrary screen:
+                            what a terminal shows after a resize is its own business) *)
 
 Definition rstep (o : oracle) (s : rstate) (x : op) : list cmd * rstate :=
   match x with
@@ -208,6 +211,7 @@ Definition rstep (o : oracle) (s : rstate) (x : op) : list cmd * rstate :=
   | SkipFrame => ([], rskip s)
   | Clear => rclear s
   | Renew => (fst (rclear s), rnew (rh s) (rw s) true)
+  | Resize h w _ => (fst (rclear s), rnew h w true)
   end.
 
 (* the command lists issued op by op *)
